@@ -237,26 +237,31 @@ fn gen_build(r: &mut Rng, thorough: bool, it: usize) -> (String, String) {
     } else { ((if it % 3 == 1 { "hist" } else { "topo" }).to_string(), h.args()) }
 }
 
-/// Deep degenerate trees from a build: centres on a geometric progression along two axes, so that the mean split peels
-/// a handful of boxes off per level and the bulk goes on in ONE lane (which lane: the signs), 20-40 levels deep.  Then
-/// the deepest leaf moves (CHANGED path below FULL_REBUILD_DEPTH), refit, rebalance (full-rebuild fallback), and `rounds`
-/// follow-up rounds on the SAME workspace: a shallow leaf moves, refit, rebalance — invariant oracle after each.
+/// Deep degenerate trees from a build: groups of three boxes on a geometric progression about the origin — `(g, g)`,
+/// `(g, g·δ)`, `(g·δ, g)` along two axes, `g = A·ρ^k` — so that at EVERY level the mean split (with or without the
+/// fallback) peels a few boxes off into three lanes and sends the bulk on in the fourth (which lane: the signs), 18-35
+/// levels deep.  Then the deepest leaves move (CHANGED path below FULL_REBUILD_DEPTH), refit, rebalance (full-rebuild
+/// fallback), and `rounds` follow-up rounds on the SAME workspace: a shallow leaf moves, refit, rebalance — model
+/// comparison and invariant oracle after each.
 fn deep_degenerate_history(r: &mut Rng, thorough: bool, it: usize) -> (String, String) {
     let lat = it % 2 == 0;
-    let n = if thorough { 200 + r.below(200) as usize } else { 130 + r.below(120) as usize };
+    let groups = if thorough { 56 + r.below(40) as usize } else { 46 + r.below(16) as usize };
+    let n = 3 * groups;
     let (sx, sy) = match it % 4 { 0 => (-1.0, -1.0), 1 => (1.0, -1.0), 2 => (-1.0, 1.0), _ => if r.bool() { (1.0, 1.0) } else { (-1.0, -1.0) } };
-    let rho = if lat { 0.5 } else { r.uniform(0.6, 0.85) };
+    let rho = if lat { *r.pick(&[0.25, 0.125]) } else { r.uniform(0.12, 0.28) };
     let a0 = if lat { 512.0 } else { r.uniform(200.0, 900.0) };
+    let delta = if lat { 1.0 / 4096.0 } else { r.uniform(1.0e-4, 1.0e-3) };
     let perm = *r.pick(&[[0usize, 1, 2], [1, 2, 0], [2, 0, 1], [0, 2, 1]]);
-    // no offset: the progression is about the origin, so that every centre stays a different float however small
-    let off = d3::Vector::zeros();
     let mut boxes = Vec::new();
     let mut g = a0;
-    for k in 0..n {
-        let mut c = d3::Point::origin();
-        c[perm[0]] = sx * g; c[perm[1]] = sy * g * 0.5; c[perm[2]] = if lat { (k % 4) as f64 * 0.0078125 } else { r.uniform(-1e-3, 1e-3) };
-        let he = if r.below(5) == 0 { d3::Vector::zeros() } else { d3::Vector::repeat(g * 0.125) };
-        boxes.push(Aabb::new(c - he + off, c + he + off));
+    for _ in 0..groups {
+        for (fx, fy) in [(1.0, 1.0), (1.0, delta), (delta, 1.0)] {
+            let j = |r: &mut Rng| if lat { 1.0 } else { 1.0 + r.uniform(-0.01, 0.01) };
+            let mut c = d3::Point::origin();
+            c[perm[0]] = sx * g * fx * j(r); c[perm[1]] = sy * g * fy * j(r); c[perm[2]] = 0.0;
+            let he = if r.below(5) == 0 { d3::Vector::zeros() } else { d3::Vector::repeat(g * delta * 0.25) };
+            boxes.push(Aabb::new(c - he, c + he));
+        }
         g *= rho;
     }
     let mut h = Hist::new(n + 8);
